@@ -1,6 +1,6 @@
 // K-C12: correspondence harness for include/shark/Data/CVDatasetTools.h.
 // Same line protocol as lean/Driver/C12.lean (every op line is self-contained).
-// argv[1]: uint | real | sparse  (input element type).  The RNG-dependent functions are seeded from
+// argv[1]: uint | real | sparse | blob  (input element type; blob = user struct in std::vector batches).  The RNG-dependent functions are seeded from
 // the op line; what the real code drew is *observed* from the result and printed as obs=[…]
 // (tools/obsfeed.py feeds it to the Lean driver, which checks it against the model's relation).
 // Independent oracle: disjointness / cover / complement / pairing / balance / shape, evaluated on the
@@ -182,6 +182,7 @@ int main(int argc, char** argv){
 	if(ty == "uint"){ H<unsigned int> h; return h.run(); }
 	if(ty == "real"){ H<RealVector> h; return h.run(); }
 	if(ty == "sparse"){ H<CompressedRealVector> h; return h.run(); }
+	if(ty == "blob"){ H<Blob> h; return h.run(); }
 	std::cerr << "unknown element type " << ty << std::endl;
 	return 2;
 }
